@@ -150,3 +150,55 @@ Theorem gate_then_refines : forall dated bs (f : file) k1 k2 ops plan, 0 < bs ->
   Some (syslines dated f).
 Proof. exact CachesGateProofs.gate_then_refines. Qed.
 Print Assumptions gate_then_refines.
+
+(* ---------------------------------------------------------------------------------------------
+   Streamed containers (gz / bz2 / lz4): the BlockReader is part of Model/Caches.v (which blocks are
+   stored, read, cached; the look-behind drop of read_block_File{Gz,Bz2,Lz4}; disable_drop_data). *)
+From S4.Proofs Require Import CachesStreamProofs.
+
+(* with block drops DISABLED before anything was read (what SyslogProcessor does for a streamed file
+   whose timestamps lack a year, before the reverse pass of process_missing_year) the streamed reader
+   answers EVERY call history without cache drops as the spec says - backward calls included *)
+Theorem streamed_drop_disabled_refines : forall dated bs (f : file) ops, 0 < bs -> Forall op_nodrop ops ->
+  map (obs_cres bs f) (snd (c_run dated bs f (lr_init, sr_stream_nodrop) ops)) = map (spec_cobs dated f) ops /\
+  forallb (fun x => negb (cres_panicked x)) (snd (c_run dated bs f (lr_init, sr_stream_nodrop) ops)) = true.
+Proof. exact CachesStreamProofs.streamed_nodrop_refines. Qed.
+Print Assumptions streamed_drop_disabled_refines.
+
+(* with drops enabled: reading the newest block or any later block always succeeds and keeps the stream
+   invariant SI (nothing read, cached or stored lies at or beyond the decoder; the newest block is stored) *)
+Theorem read_block_forward : forall refd filesz last b bo, SI b -> b_dec b <= bo + 1 -> bo <= last -> 0 < filesz ->
+  exists b', b_read_block refd filesz last b bo = (b', BFound) /\ SI b' /\ b_dec b' = N.max (b_dec b) (bo + 1).
+Proof. exact CachesStreamProofs.b_read_block_fwd. Qed.
+Print Assumptions read_block_forward.
+
+(* ... and a block strictly below the newest one that is no longer stored is GONE: read_block answers Done *)
+Theorem read_block_gone : forall refd filesz last b bo, SI b -> b_drop b = true ->
+  nmem bo (b_lru b) = false -> nmem bo (b_blocks b) = false -> bo + 1 < b_dec b -> 0 < filesz -> bo <= last ->
+  exists b', b_read_block refd filesz last b bo = (b', BDone).
+Proof. exact CachesStreamProofs.b_read_block_gone. Qed.
+Print Assumptions read_block_gone.
+
+(* find_line at the begin of a line whose predecessor is known to the reader (shortcuts A0 / A1a / A1b, or a
+   cache hit), at or after the newest block: the spec line, no block that is gone is needed, SI is kept.
+   This is every find_line call of a forward sweep (the stage driver's pattern).
+   NOT PROVED (full statement): streamed_driver_complete - for a streamed reader with drops enabled the stage
+   driver (block-zero analysis, first find at 0, then at each fo_next, drop_data_try after each message, any
+   plan) emits exactly `syslines dated f`.  Missing: the induction over find_sysline's loops and the driver
+   that shows every find_line call of that pattern meets the hypotheses below (the analogue of
+   CachesGateProofs for find_line); the check judges this pattern against the spec on every run. *)
+Theorem find_line_stream_forward_partial : forall bs (f : file) l fo l' r p, 0 < bs ->
+  lr_inv0 bs f l -> lSI l -> fo < lenN f -> line_beg f fo = fo -> pred_known l fo -> ldec l <= blk bs fo + 1 ->
+  c_find_line bs f l fo = (l', r, p) ->
+  lr_inv0 bs f l' /\ lSI l' /\ lres_ok bs f fo r /\ ldec l <= ldec l' /\ ldec l' <= blk bs (line_end f fo) + 1.
+Proof. exact CachesStreamProofs.find_line_stream_forward. Qed.
+Print Assumptions find_line_stream_forward_partial.
+
+(* a backward call on a streamed reader with drops enabled is NOT answered (the plain reader answers it) *)
+Theorem streamed_backward_refuted :
+  exists (dated : list N -> option Z) (bs : N) (f : file) (ops : list cop),
+    0 < bs /\ Forall op_nodrop ops /\
+    map (obs_cres bs f) (snd (c_run dated bs f (cinit_k true) ops)) <> map (spec_cobs dated f) ops /\
+    map (obs_cres bs f) (snd (c_run dated bs f (cinit_k false) ops)) = map (spec_cobs dated f) ops.
+Proof. exact CachesStreamProofs.streamed_backward_refuted. Qed.
+Print Assumptions streamed_backward_refuted.
